@@ -90,6 +90,23 @@ class AsyncResultHandler(Handler):
 
 # ------------------------------------------------------------------------------
 #
+class FailedHandler(Handler):
+    '''
+    Handler for a task which could not be launched: it is complete right away.
+    '''
+
+    def __init__(self, exc):
+        self._exc = exc
+
+    def is_alive(self):
+        return False
+
+    def get_results(self):
+        return '', repr(self._exc), 1, None, repr(self._exc)
+
+
+# ------------------------------------------------------------------------------
+#
 class GroupHandler(Handler):
 
     # --------------------------------------------------------------------------
@@ -250,7 +267,16 @@ class Server(object):
                     self._log.error('task cancellation not yet implemented')
 
                 elif cmd == 'run':
-                    self._launch(msg['task'])
+                    task = msg['task']
+                    try:
+                        self._launch(task)
+                    except Exception as e:
+                        # fail this task only, keep serving the others
+                        self._log.exception('task %s: launch failed',
+                                            task['uid'])
+                        ranks = task['description']['ranks']
+                        task['dragon_handler'] = (FailedHandler(e), ranks)
+                        self._watcher_queue.put(task)
 
                 else:
                     raise ValueError('unknown command %s' % cmd)
